@@ -396,7 +396,9 @@ def modes_loop(chk, mg, tier, rng):
         vols = [ctx.var("V%d" % i, positive=True) for i in range(nvol)]
         W = symvars("w", (nvol, nq, np_), positive=True)
         volumes = [md.VolumeData(0.0, vols[i], 0.0, [md.QPointData((0, 0, j), list(W[i, j])) for j in range(nq)]) for i in range(nvol)]
-        qin = md.QHAInputData(nvol, nq, np_, 1, np_ // 3, [((0, 0, j), 1.0) for j in range(nq)], volumes)
+        # weights: arbitrary non-negative numbers; the last q-point carries weight 0 (legitimate: it only drops out of the averages,
+        # its slots must still hold its own interpolant)
+        qin = md.QHAInputData(nvol, nq, np_, 1, np_ // 3, [((0, 0, j), 0.0 if j == nq - 1 else 2.5) for j in range(nq)], volumes)
         v_array = symvars("v", (ntv,), positive=True)
         calls = []
 
@@ -446,7 +448,7 @@ def replay_modes(chk, mg, rng, method, what):
     gam = numpy.array([[0.8 + 0.3 * k + 0.7 * j for k in range(np_)] for j in range(nq)])
     A = numpy.array([[1e4 * (1 + k + 3 * j) for k in range(np_)] for j in range(nq)])
     volumes = [md.VolumeData(0.0, vols[i], 0.0, [md.QPointData((0, 0, j), list(A[j] * vols[i] ** (-gam[j]))) for j in range(nq)]) for i in range(nvol)]
-    qin = md.QHAInputData(nvol, nq, np_, 1, 2, [((0, 0, j), 1.0) for j in range(nq)], volumes)
+    qin = md.QHAInputData(nvol, nq, np_, 1, 2, [((0, 0, j), 0.0 if j == nq - 1 else 2.5) for j in range(nq)], volumes)
     v = numpy.linspace(410, 310, 5)
     try:
         fr, ga, vd = mg.interpolate_modes(qin, v, method=method, order=3)
